@@ -744,7 +744,133 @@ def c01_19(ctx):
     return shared_obligations(ctx, ["pecc"], "the result would depend on something other than the arguments and the object's current state")
 
 
+def c01_20(ctx):
+    """PrivateKey.sign and S256Point.verify evaluated whole, with the rule's own secp256k1 as the group (points carry their discrete log, so
+    u*G + v*P is arithmetic modulo n and only x coordinates need a real scalar multiplication) and the standard library's HMAC-SHA256 for the
+    RFC 6979 generator:  (a) for secrets {1, 2, n-2, n-1, 2^128+1, 2^255-19} × digests {0, 1, n-1, n, n+1, 2^256-1, a mixed value} the signature
+    equals the rule's own deterministic RFC 6979 signature with low S, and verifies;  (b) for each such signature the verifier answers true for
+    (r, s) and (r, n-s) -- both satisfy the equation -- and false for an altered digest, another key, r+1, s+1, r or s replaced by 0, n, n+r /
+    n+s and 2^256-1.  Bounded evaluation on the listed cells (the quantifier's named boundary values)"""
+    import hashlib
+    import hmac
+    from rules.C02 import _ref_mul
+    from sa.cells import Evaluator, Obj, Raised, Undecided
+    spec_s, spec_v = "pecc:PrivateKey.sign", "pecc:S256Point.verify"
+    mod, fn_s = rl.get(ctx, spec_s)
+    _, fn_v = rl.get(ctx, spec_v)
+    P_ = 2 ** 256 - 2 ** 32 - 977
+
+    def pt(k):
+        k %= N
+        xy = _ref_mul(k)
+        if xy is None:
+            return Obj("pecc", "S256Point", {"k": 0, "x": None, "y": None})
+        return Obj("pecc", "S256Point", {"k": k, "x": Obj("pecc", "S256Field", {"num": xy[0], "prime": P_}), "y": Obj("pecc", "S256Field", {"num": xy[1], "prime": P_})})
+
+    def rmul(p, c):
+        if not isinstance(c, int) or "k" not in p.attrs:
+            raise Undecided("scalar multiple outside the model")
+        return pt(c * p.attrs["k"])
+
+    def add(a, b):
+        if not (isinstance(a, Obj) and isinstance(b, Obj) and "k" in a.attrs and "k" in b.attrs):
+            raise Undecided("point addition outside the model")
+        return pt(a.attrs["k"] + b.attrs["k"])
+    hooks = {("S256Point", "__rmul__"): rmul, ("S256Point", "__add__"): add, ("Point", "__add__"): add,
+             ("Signature", "__init__"): lambda o, r=None, s=None, *a, **k: o.attrs.update({"r": r, "s": s})}
+    ext = {"G": pt(1)}
+
+    def rfc6979(d, z):
+        k, v = b"\x00" * 32, b"\x01" * 32
+        zb, db = (z % N if z < 2 * N else z % N).to_bytes(32, "big"), d.to_bytes(32, "big")
+        if z >= N:
+            zb = (z - N).to_bytes(32, "big")
+        k = hmac.new(k, v + b"\x00" + db + zb, hashlib.sha256).digest()
+        v = hmac.new(k, v, hashlib.sha256).digest()
+        k = hmac.new(k, v + b"\x01" + db + zb, hashlib.sha256).digest()
+        v = hmac.new(k, v, hashlib.sha256).digest()
+        while True:
+            v = hmac.new(k, v, hashlib.sha256).digest()
+            c = int.from_bytes(v, "big")
+            if 1 <= c < N:
+                return c
+            k = hmac.new(k, v + b"\x00", hashlib.sha256).digest()
+            v = hmac.new(k, v, hashlib.sha256).digest()
+
+    def ref_sign(d, z):
+        k = rfc6979(d, z)
+        r = _ref_mul(k)[0] % N
+        s_ = (z + r * d) * pow(k, -1, N) % N
+        return r, min(s_, N - s_)
+
+    def ref_verify(dpub, z, r, s_):
+        if not (1 <= r < N and 1 <= s_ < N):
+            return False
+        si = pow(s_, -1, N)
+        R = _ref_mul((z * si + r * si * dpub) % N)
+        return R is not None and R[0] % N == r
+    secrets = [1, 2, N - 2, N - 1, 2 ** 128 + 1, 2 ** 255 - 19]
+    digests = [0, 1, N - 1, N, N + 1, 2 ** 256 - 1, int.from_bytes(hashlib.sha256(b"c01").digest(), "big")]
+    quick = getattr(ctx, "tier", "quick") != "thorough"
+    if quick:
+        pairs = [(secrets[i % len(secrets)], z) for i, z in enumerate(digests)] + [(d, digests[(i + 3) % len(digests)]) for i, d in enumerate(secrets)]
+    else:
+        pairs = [(d, z) for d in secrets for z in digests]
+    out = []
+    bad_s = bad_v = None
+    n = m = 0
+    try:
+        for d, z in pairs:
+            n += 1
+            want = ref_sign(d, z)
+            key = Obj("pecc", "PrivateKey", {"secret": d, "point": pt(d), "network": "mainnet", "compressed": True})
+            try:
+                sig = Evaluator(ctx.repo, method_hooks=hooks, externals=ext, max_steps=1000000).call(spec_s, [z], self_obj=key)
+            except Raised as x:
+                bad_s = "secret %#x, digest %#x: signing raises %s" % (d, z, x.name)
+                break
+            got = (sig.attrs.get("r"), sig.attrs.get("s")) if isinstance(sig, Obj) else None
+            if got != want:
+                what = "has high S" if got and got[0] == want[0] and got[1] == N - want[1] else ("is not the RFC 6979 signature (another nonce was used)" if got and got[0] != want[0] else "does not satisfy s = (z + r·d)/k")
+                bad_s = "secret %s, digest %s: the signature %s" % (_fmtn(d), _fmtn(z), what)
+                break
+            if bad_v is None:
+                r, s_ = want
+                tuples = [("the signature itself", d, z, r, s_), ("(r, n-s)", d, z, r, N - s_), ("digest+1", d, (z + 1) % 2 ** 256, r, s_), ("another key", (d % (N - 2)) + 1 if (d % (N - 2)) + 1 != d else 3, z, r, s_),
+                          ("r+1", d, z, r + 1, s_), ("s+1", d, z, r, s_ + 1), ("r = 0", d, z, 0, s_), ("s = 0", d, z, r, 0), ("r = n", d, z, N, s_), ("s = n", d, z, r, N),
+                          ("r+n", d, z, r + N, s_), ("s+n", d, z, r, s_ + N), ("r = 2^256-1", d, z, 2 ** 256 - 1, s_), ("s = 2^256-1", d, z, r, 2 ** 256 - 1)]
+                for label, dk, zz, rr, ss in tuples:
+                    m += 1
+                    sigo = Obj("pecc", "Signature", {"r": rr, "s": ss})
+                    try:
+                        v = Evaluator(ctx.repo, method_hooks=hooks, externals=ext, max_steps=1000000).call(spec_v, [zz, sigo], self_obj=pt(dk))
+                    except Raised as x:
+                        bad_v = "secret %s, digest %s, %s: verify raises %s" % (_fmtn(d), _fmtn(z), label, x.name)
+                        break
+                    expect = ref_verify(dk, zz, rr, ss)
+                    if bool(v) != expect or not isinstance(v, bool):
+                        bad_v = "secret %s, digest %s, tuple `%s`: verify answers %r, the ECDSA equation with the range rule says %s" % (_fmtn(d), _fmtn(z), label, v, expect)
+                        break
+    except Undecided as u:
+        return [ctx.err(spec_s, "sign / verify not evaluable: %s" % u, fn_s, mod)]
+    ctx.count("cells", n + m)
+    out.append(ctx.bad(spec_s, bad_s, fn_s, mod, key="ecdsa-cells:sign") if bad_s else
+               ctx.ok(spec_s, "%d (secret, digest) cells: the signature is the rule's own RFC 6979 signature with low S" % n, fn_s, mod, key="ecdsa-cells:sign"))
+    out.append(ctx.bad(spec_v, bad_v, fn_v, mod, key="ecdsa-cells:verify") if bad_v else
+               ctx.ok(spec_v, "%d (key, digest, r, s) tuples: true exactly for the tuples that satisfy the equation with r, s in [1, n-1]" % m, fn_v, mod, key="ecdsa-cells:verify"))
+    return out
+
+
+def _fmtn(v):
+    for base, name in ((N, "n"), (2 ** 256, "2^256"), (2 ** 255, "2^255"), (2 ** 128, "2^128")):
+        if abs(v - base) <= 32:
+            return name if v == base else "%s%+d" % (name, v - base)
+    return "%#x" % v if v > 1 << 20 else str(v)
+
+
+
 OBLIGATIONS = [
+    ("C01.20", "CELLS sign / verify", c01_20),
     ("C01.19", "SHARED", c01_19),
     ("C01.18", "SET-ORDER", c01_18),
     ("C01.1", "RANGE accept-set", c01_1),
